@@ -8,7 +8,7 @@ use varlink::VarlinkService;
 
 const NAME_POOL: &[&str] = &[
     "a.b", "a.b.c", "a.b.c.d", "a.bc", "a.b-c", "a.b1", "a1.b", "A.b", "a.B", "a.b.C", "org.example", "org.example.more", "org.example-x.y", "org.example.mor",
-    "x.y", "x.y.z", "org.varlink", "org.varlink.servic", "org.varlink.service.x", "org.varlink.servicex", "com.example.a-b.c9", "io.b-b.c",
+    "a.1", "a.21.c", "com.example.0example", "a.b.9", "a.0-0", "a.1b.c", "x.y", "x.y.z", "org.varlink", "org.varlink.servic", "org.varlink.service.x", "org.varlink.servicex", "com.example.a-b.c9", "io.b-b.c",
 ];
 
 fn leak(s: String) -> &'static str {
